@@ -2,7 +2,9 @@
 # every stored behaviour-preserving refactoring against all 20 quick checks (run from a snapshot: vp run -- ./tools_recheck_harmless.sh)
 here=$(pwd)
 (cd lean && lake build Treepath tpdriver >/dev/null 2>&1)
+n=0; sk=${SHARD%%/*}; sn=${SHARD##*/}
 for d in seeded/harmless/R*; do
+  n=$((n+1)); [ -n "$SHARD" ] && [ $((n % sn)) -ne $((sk % sn)) ] && continue
   patch="$here/$d/patch.diff"
   wt=$(mktemp -d /tmp/hwt.XXXXXX); rmdir "$wt"
   git -C /repo worktree add -q "$wt" HEAD || exit 3
